@@ -191,9 +191,9 @@ var vxApprovedClasses = []string{
 func TestVxC20AuthSession(t *testing.T) {
 	vx.Check(t, vx.Prop{
 		ID: "C20", Part: "TestVxC20AuthSession",
-		Rule: "protocol 2..5; server demands authentication with a class from the built-in approved list or a near-miss (case change, prefix, suffix, empty, look-alike); client with / without a PasswordAuthenticator (ClusterConfig.Authenticator, or handed out per host by ClusterConfig.AuthProvider) whose AllowedAuthenticators is nil or a custom list; user/password incl. empty, NUL, non-ASCII; server follow-up AUTH_SUCCESS / AUTH_CHALLENGE / ERROR; oracle at the node: an AUTH_RESPONSE is sent iff an authenticator is configured and the class is on the effective list, and its token is exactly 0x00 user 0x00 password; no authenticator or unapproved class => CreateSession fails and no credentials leave; CHALLENGE/ERROR => CreateSession fails (never a crash, never a session); non-trivial = near-miss class or unexpected follow-up; distinct by the case",
+		Rule: "protocol 1..5 (protocol 1 has no AUTH_RESPONSE: the handshake must fail and nothing the version does not define may be sent); server demands authentication with a class from the built-in approved list or a near-miss (case change, prefix, suffix, empty, look-alike); client with / without a PasswordAuthenticator (ClusterConfig.Authenticator, or handed out per host by ClusterConfig.AuthProvider) whose AllowedAuthenticators is nil or a custom list; user/password incl. empty, NUL, non-ASCII; server follow-up AUTH_SUCCESS / AUTH_CHALLENGE / ERROR; oracle at the node: an AUTH_RESPONSE is sent iff an authenticator is configured and the class is on the effective list, and its token is exactly 0x00 user 0x00 password; no authenticator or unapproved class => CreateSession fails and no credentials leave; CHALLENGE/ERROR => CreateSession fails (never a crash, never a session); non-trivial = near-miss class or unexpected follow-up; distinct by the case",
 		Draw: func(t *rapid.T) interface{} {
-			c := &vxC20AuthCase{Proto: rapid.IntRange(2, 5).Draw(t, "proto"), Provider: rapid.IntRange(0, 2).Draw(t, "provider") == 0, HasAuth: rapid.IntRange(0, 4).Draw(t, "hasauth") > 0,
+			c := &vxC20AuthCase{Proto: rapid.IntRange(1, 5).Draw(t, "proto"), Provider: rapid.IntRange(0, 2).Draw(t, "provider") == 0, HasAuth: rapid.IntRange(0, 4).Draw(t, "hasauth") > 0,
 				User: rapid.OneOf(rapid.Just("cassandra"), rapid.Just(""), rapid.String(), rapid.Just("a\x00b")).Draw(t, "user"),
 				Pass: rapid.OneOf(rapid.Just("secret"), rapid.Just(""), rapid.String(), rapid.Just("pässwörd")).Draw(t, "pass"),
 				FollowUp: rapid.SampledFrom([]string{"SUCCESS", "SUCCESS", "SUCCESS", "CHALLENGE", "ERROR"}).Draw(t, "follow")}
@@ -222,7 +222,7 @@ func TestVxC20AuthSession(t *testing.T) {
 		New: func() interface{} { return &vxC20AuthCase{} },
 		Run: func(ci interface{}, k *vstats.Case) error {
 			c := ci.(*vxC20AuthCase)
-			if c.Proto < 2 || c.Proto > 5 {
+			if c.Proto < 1 || c.Proto > 5 {
 				return nil
 			}
 			effective := c.Allowed
@@ -292,6 +292,20 @@ func TestVxC20AuthSession(t *testing.T) {
 			}
 			wantToken := append(append([]byte{0}, []byte(c.User)...), append([]byte{0}, []byte(c.Pass)...)...)
 			sent := 0
+			if c.Proto == 1 {
+				// protocol 1 has no AUTH_RESPONSE (it authenticates with CREDENTIALS, which the driver does not speak):
+				// the handshake must fail without any frame the version does not know
+				k.Class("authentication demanded under protocol 1")
+				for _, l := range cl.AllLogs() {
+					if l.Err != "" {
+						return fmt.Errorf("protocol 1, server demands authentication: a request frame that protocol 1 does not define reached the node: %s", l.Err)
+					}
+				}
+				if err == nil {
+					return fmt.Errorf("protocol 1, server demands authentication: a session was created")
+				}
+				return nil
+			}
 			for _, l := range cl.AllLogs() {
 				if l.Err != "" {
 					return fmt.Errorf("node could not decode a request: %s", l.Err)
